@@ -1,0 +1,58 @@
+//go:build verif
+
+// Contracts checked by /verif/govc (comment-only file; adds no code).
+
+package notation
+
+//@ global invariant reservedAnnotationPrefixes[0] == "io.cncf.notary"
+//@ global invariant errDoneVerification != nil
+
+// ---- C11: signing signs exactly what was resolved and writes nothing it was handed ----
+
+//@ func addUserMetadataToDescriptor
+//@ props C11 C07
+//@ ensures[C11.fields]  result.MediaType == desc.MediaType && result.Digest == desc.Digest && result.Size == desc.Size
+//@ ensures[C11.merge]   result1 == nil ==> forall(k, string, has(result.Annotations, k) == (has(desc.Annotations, k) || has(userMetadata, k)))
+//@ ensures[C11.merge]   result1 == nil ==> forallkeys(k, userMetadata, result.Annotations[k] == userMetadata[k]) && forallkeys(k, desc.Annotations, result.Annotations[k] == desc.Annotations[k])
+//@ ensures[C11.refuse]  result1 == nil ==> forallkeys(k, userMetadata, !hasprefix(k, "io.cncf.notary") && !has(desc.Annotations, k))
+//@ ensures[C11.frame]   len(userMetadata) > 0 ==> fresh(result.Annotations)
+//@ ensures[C11.frame]   len(userMetadata) == 0 ==> result.Annotations == desc.Annotations
+//@ loop 1 invariant annotations != nil && fresh(annotations) && forall(k, string, has(annotations, k) == (visited(k) && has(param(desc).Annotations, k))) && forall(k, string, visited(k) ==> annotations[k] == param(desc).Annotations[k])
+//@ loop 1 invariant len(userMetadata) > 0
+//@ loop 1 modifies mapobj(annotations)
+//@ loop 2 invariant desc.MediaType == param(desc).MediaType && desc.Digest == param(desc).Digest && desc.Size == param(desc).Size
+//@ loop 2 invariant len(userMetadata) > 0 ==> desc.Annotations != nil && fresh(desc.Annotations)
+//@ loop 2 invariant len(userMetadata) == 0 ==> desc.Annotations == param(desc).Annotations
+//@ loop 2 invariant forall(k, string, has(desc.Annotations, k) == (has(param(desc).Annotations, k) || (visited(k) && has(userMetadata, k))))
+//@ loop 2 invariant forall(k, string, visited(k) && has(userMetadata, k) ==> desc.Annotations[k] == userMetadata[k] && !hasprefix(k, "io.cncf.notary") && !has(param(desc).Annotations, k))
+//@ loop 2 invariant forall(k, string, has(param(desc).Annotations, k) ==> desc.Annotations[k] == param(desc).Annotations[k])
+//@ loop 2 modifies mapobj(desc.Annotations)
+//@ loop 2 invariant reservedAnnotationPrefixes[0] == "io.cncf.notary"
+//@ loop 3 invariant reservedAnnotationPrefixes[0] == "io.cncf.notary"
+//@ loop 3 invariant forall(i, 0, rangeindex+1, !hasprefix(k, reservedAnnotationPrefixes[i]))
+//@ loop 3 exit-assert !hasprefix(k, "io.cncf.notary")
+
+//@ func validateSignArguments
+//@ props C11 C07
+//@ ensures[C11.args] result == nil ==> signer != nil && signOpts.ExpiryDuration >= 0 && signOpts.SignatureMediaType != ""
+
+//@ func generateAnnotations
+//@ props C11
+//@ requires signerInfo == nil || forall(i, 0, len(signerInfo.CertificateChain), signerInfo.CertificateChain[i] != nil)
+//@ modifies mapobj(annotations)
+//@ ensures[C11.annotations] result1 == nil ==> signerInfo != nil && result != nil && (annotations != nil ==> result == annotations) && (annotations == nil ==> fresh(result)) && has(result, "io.cncf.notary.x509chain.thumbprint#S256") && has(result, "org.opencontainers.image.created")
+//@ ensures-local[C11.thumbprints] result1 == nil ==> len(thumbprints) == len(signerInfo.CertificateChain) && forall(i, 0, len(thumbprints), thumbprints[i] == hexOf(sha256Of(string(signerInfo.CertificateChain[i].Raw)))) && result["io.cncf.notary.x509chain.thumbprint#S256"] == jsonEnc(box(thumbprints))
+//@ ensures result1 != nil ==> result == nil
+//@ loop 1 invariant len(thumbprints) == rangeindex+1 && (len(thumbprints) == 0 || fresh(thumbprints)) && newsince(thumbprints) && forall(i, 0, len(thumbprints), thumbprints[i] == hexOf(sha256Of(string(signerInfo.CertificateChain[i].Raw))))
+
+//@ pure func sameDesc3(a ocispec.Descriptor, b ocispec.Descriptor) bool = a.MediaType == b.MediaType && a.Digest == b.Digest && a.Size == b.Size
+
+//@ func SignOCI
+//@ props C11
+//@ modifies mapobj(pluginAnns(signer))
+//@ at call (Repository).Resolve: assert[C11.resolve-ref] arg1 == ite(refParseErr(signOpts.ArtifactReference) == nil, refReference(signOpts.ArtifactReference), signOpts.ArtifactReference)
+//@ at call (Signer).Sign: assert[C11.signs-resolved] sameDesc3(arg1, artifactManifestDesc) && forall(k, string, has(arg1.Annotations, k) == (has(artifactManifestDesc.Annotations, k) || has(signOpts.UserMetadata, k))) && forallkeys(k, signOpts.UserMetadata, arg1.Annotations[k] == signOpts.UserMetadata[k] && !hasprefix(k, "io.cncf.notary") && !has(artifactManifestDesc.Annotations, k)) && forallkeys(k, artifactManifestDesc.Annotations, arg1.Annotations[k] == artifactManifestDesc.Annotations[k])
+//@ at call (Signer).Sign: assert[C11.digest-pinned] artifactRef == string(artifactManifestDesc.Digest) || digestParseErr(artifactRef) != nil
+//@ at call (Signer).Sign: assert[C11.resolved] resolveErr(repo, artifactRef) == nil && artifactManifestDesc == resolved(repo, artifactRef)
+//@ at call (Repository).PushSignature: assert[C11.push-args] arg1 == signOpts.SignatureMediaType && arg2 == sig && arg3 == resolved(repo, artifactRef) && arg4 == annotations && has(annotations, "io.cncf.notary.x509chain.thumbprint#S256") && has(annotations, "org.opencontainers.image.created")
+//@ ensures-local[C11.returns-resolved] result2 == nil ==> result == resolved(repo, artifactRef)
